@@ -44,11 +44,11 @@ UNQ = ["a@", "fn_@", "a-@.b", "@", "x@/y", "-D@=1", "k@=v", "=@", "a@:b", "<@>",
        "[=x@", "a@=[b", "$<@>", "$ENV{E@}", "${v@}", "${${n@}}", "pre${v@}post", "a@\\ ", "漢字@", "\\[@", "\\]@", "~@", "a@'b", "`@`",
        "a@|b", "&@", "%@%", "!@", "^@", "{@}", "a@?",
        "\ufeff", "a\ufeff@", "ff\x0c@", "vt\x0b@x", "nel\x85@", "ls\u2028@", "ps\u2029@", "nbsp\xa0@", "zw\u200b@", "fs\x1c@"]
-QUO = ['"q@"', '"two words @"', '"a;b;@"', '"#@"', '"# ; [ ] $ ' + AT + ' < > ( ) @"', '"@ ${v}"', '"esc\\"@"', '"(@)"', '"[[@]]"',
+QUO = ['"first line @\n#[[[ looks like a doccomment opener, inside a string"', '"q@"', '"two words @"', '"a;b;@"', '"#@"', '"# ; [ ] $ ' + AT + ' < > ( ) @"', '"@ ${v}"', '"esc\\"@"', '"(@)"', '"[[@]]"',
        '" @ "', '"tab\\t@\\n\\r\\;"', '"$<@>"', '"ü漢@"', '""', '"\\\\@"', '"\\(\\)\\#@"', '"line1 @\\\nline2"', '"a@\nb"',
        '"#[[ not a comment @ ]]"', '"#[[[ not doc @"', '"\\ @"', '"a@\\\r\nb"', '"' + AT + '@' + AT + '"', '"\\$@"', '"]]@"', '"[=[@"', '"lit\ttab  @"', '"trailing space @ "', '"ff\x0c @"',
        '"ls\u2028 nel\x85 @"', '"vt\x0b@"']
-BRK = ["[[b@]]", "[=[b@]=]", "[=[x]]@]=]", "[[b @ c]]", "[==[]=]@]==]", "[[(@]]", '[["@]]', "[[#@]]", "[[\n@\nline]]", "[=[\n]]@]=]",
+BRK = ["[[first @\n#[[[ inside a bracket argument\n]]", "[[b@]]", "[=[b@]=]", "[=[x]]@]=]", "[[b @ c]]", "[==[]=]@]==]", "[[(@]]", '[["@]]', "[[#@]]", "[[\n@\nline]]", "[=[\n]]@]=]",
        "[===[ ]==] ]=] ]] @ ]===]", "[[${v@} \\n \\x]]", "[[]]", "[=[]=]", "[[a@]b]]", "[=[a@]=b]=]", "[[ü漢@]]", "[[#[[@]]",
        "[=[[[@]]]=]", "[[;@;]]", "[[\t@ \t]]", "[[  @  ]]", "[[ff\x0c@\u2028]]"]
 POOL = UNQ + UNQ + QUO + BRK
